@@ -431,8 +431,13 @@ def finish(ctx, level="proof"):
     ev = {"property_id": prop, "tier": ctx.tier, "seed": ctx.seed, "level": level, "coverage": cov,
           "assumptions": ctx.assumptions or ["see coverage.trusted_base"], "wall_s": round(time.time() - ctx.t0, 2),
           "violations": len(seen)}
-    os.makedirs(os.path.join(VERIF, "evidence"), exist_ok=True)
-    json.dump(ev, open(os.path.join(VERIF, "evidence", prop + ".json"), "w"), indent=1, default=str)
+    if ctx.repo == "/repo":
+        os.makedirs(os.path.join(VERIF, "evidence"), exist_ok=True)
+        json.dump(ev, open(os.path.join(VERIF, "evidence", prop + ".json"), "w"), indent=1, default=str)
+    else:
+        # a run against another tree (mutant, seeded change, rewrite) must never overwrite the evidence of /repo itself
+        ev["repo"] = ctx.repo
+        json.dump(ev, open(os.path.join(ctx.build, "evidence.json"), "w"), indent=1, default=str)
     return 1 if fresh else 0
 
 
